@@ -191,4 +191,226 @@ theorem loadRouter_reorder (exits : List ExitD) (r : RouterD)
             subst this
             simp only [loadRouter, hcs, horig, hf, hf2, hfl, hf0, hf20, hfl0]
 
+/-! ### the reordered router: structure, validity, order -/
+
+theorem reorder_switch (op : Blob) (cases : List CaseD) (cats : List CategoryD) (dflt : Str) (wait : Option WaitD)
+    (rn : Option Blob) (hd : dflt ∈ cats.map (·.uuid))
+    (ht : ∀ t, wait.bind (·.timeout) = some t → t.categoryUuid ∈ cats.map (·.uuid) ∧ t.categoryUuid ≠ dflt) :
+    ∃ F dc tail, reorderRouter (.switch op cases cats dflt wait rn) = .switch op cases (F ++ [dc] ++ tail) dflt wait rn ∧
+      F.Sublist cats ∧ dc ∈ cats ∧ dc.uuid = dflt ∧ (∀ c ∈ F, c.uuid ≠ dflt) ∧
+      ((wait.bind (·.timeout) = none ∧ tail = []) ∨
+       (∃ t nc, wait.bind (·.timeout) = some t ∧ tail = [nc] ∧ nc ∈ cats ∧ nc.uuid = t.categoryUuid ∧
+          t.categoryUuid ≠ dflt ∧ ∀ c ∈ F, c.uuid ≠ t.categoryUuid)) := by
+  obtain ⟨dc, hdc, hdcm, hdcu⟩ := find_default hd
+  cases hwt : wait.bind (·.timeout) with
+  | none =>
+    refine ⟨cats.filter (fun c => c.uuid != dflt), dc, [], ?_, List.filter_sublist, hdcm, hdcu, ?_, Or.inl ⟨rfl, rfl⟩⟩
+    · simp [reorderRouter, hwt, hdc]
+    · intro c hc
+      simpa using (List.mem_filter.mp hc).2
+  | some t =>
+    obtain ⟨htm, htne⟩ := ht t hwt
+    obtain ⟨nc, hnc, hncm, hncu⟩ := find_default htm
+    refine ⟨cats.filter (fun c => c.uuid != dflt && c.uuid != t.categoryUuid), dc, [nc], ?_, List.filter_sublist, hdcm, hdcu, ?_,
+      Or.inr ⟨t, nc, rfl, rfl, hncm, hncu, htne, ?_⟩⟩
+    · simp [reorderRouter, hwt, hdc, hnc]
+    · intro c hc
+      have := (List.mem_filter.mp hc).2
+      simp only [Bool.and_eq_true, bne_iff_ne, ne_eq] at this
+      exact this.1
+    · intro c hc
+      have := (List.mem_filter.mp hc).2
+      simp only [Bool.and_eq_true, bne_iff_ne, ne_eq] at this
+      exact this.2
+
+/-- a function that is injective on `cats` stays duplicate-free on the reordered list -/
+theorem nodup_reordered {β : Type} (f : CategoryD → β) (cats F : List CategoryD) (dc : CategoryD) (tail : List CategoryD)
+    (hnd : (cats.map f).Nodup) (hF : F.Sublist cats) (hdc : dc ∈ cats) (hdcF : dc ∉ F)
+    (htail : tail = [] ∨ ∃ nc, tail = [nc] ∧ nc ∈ cats ∧ nc ∉ F ∧ nc ≠ dc) :
+    ((F ++ [dc] ++ tail).map f).Nodup := by
+  have hinj : ∀ a ∈ cats, ∀ b ∈ cats, f a = f b → a = b := by
+    intro a ha b hb hab
+    clear hF hdc hdcF htail
+    induction cats with
+    | nil => simp at ha
+    | cons x xs ih =>
+      simp only [List.map_cons, List.nodup_cons] at hnd
+      rcases List.mem_cons.mp ha with rfl | ha' <;> rcases List.mem_cons.mp hb with rfl | hb'
+      · rfl
+      · exact absurd (hab ▸ List.mem_map_of_mem hb') hnd.1
+      · exact absurd (hab ▸ List.mem_map_of_mem ha') hnd.1
+      · exact ih hnd.2 ha' hb'
+  have hFn : (F.map f).Nodup := (hF.map f).nodup hnd
+  have hFm : ∀ c ∈ F, c ∈ cats := fun c hc => hF.subset hc
+  have h1 : ((F ++ [dc]).map f).Nodup := by
+    rw [List.map_append, List.nodup_append]
+    refine ⟨hFn, by simp, ?_⟩
+    intro a ha b hb hab
+    obtain ⟨c, hc, rfl⟩ := List.mem_map.mp ha
+    simp only [List.map_cons, List.map_nil, List.mem_singleton] at hb
+    subst hb
+    exact hdcF (hinj c (hFm c hc) dc hdc hab ▸ hc)
+  rcases htail with rfl | ⟨nc, rfl, hncm, hncF, hne⟩
+  · simpa using h1
+  · rw [List.map_append, List.nodup_append]
+    refine ⟨h1, by simp, ?_⟩
+    intro a ha b hb hab
+    simp only [List.map_cons, List.map_nil, List.mem_singleton] at hb
+    subst hb
+    obtain ⟨c, hc, rfl⟩ := List.mem_map.mp ha
+    rcases List.mem_append.mp hc with hc | hc
+    · exact hncF (hinj c (hFm c hc) nc hncm hab ▸ hc)
+    · simp only [List.mem_singleton] at hc
+      subst hc
+      exact hne (hinj c hdc nc hncm hab).symm
+
+/-- what `catsWired` says, unpacked -/
+theorem catsWired_unpack (uuid : Str) (actions : List ActionD) (r : RouterD) (exits : List ExitD)
+    (hw : catsWired { uuid := uuid, actions := actions, router := some r, exits := exits } = true) :
+    (∀ c ∈ routerCatsD r, c.exitUuid ∈ exits.map (·.uuid)) ∧ ((routerCatsD r).map (·.exitUuid)).Nodup ∧
+    (match r with
+      | .random .. => True
+      | .switch _ _ cats dflt wait _ => dflt ∈ cats.map (·.uuid) ∧
+          ∀ t, wait.bind (·.timeout) = some t → t.categoryUuid ∈ cats.map (·.uuid) ∧ t.categoryUuid ≠ dflt) := by
+  simp only [catsWired, Bool.and_eq_true, decide_eq_true_eq, List.all_eq_true, List.contains_eq_mem] at hw
+  obtain ⟨⟨h1, h2⟩, h3⟩ := hw
+  refine ⟨h1, h2, ?_⟩
+  cases r with
+  | random cats rn => trivial
+  | switch op cases cats dflt wait rn =>
+    simp only [Bool.and_eq_true, decide_eq_true_eq, List.contains_eq_mem] at h3
+    refine ⟨h3.1, ?_⟩
+    intro t ht
+    have := h3.2
+    simp only [ht, Bool.and_eq_true, decide_eq_true_eq, List.contains_eq_mem, bne_iff_ne, ne_eq] at this
+    exact this
+
+theorem reorderRouter_facts (r : RouterD) (hv : validRouter r = true)
+    (hxd : ((routerCatsD r).map (·.exitUuid)).Nodup)
+    (hd : match r with
+      | .random .. => True
+      | .switch _ _ cats dflt wait _ => dflt ∈ cats.map (·.uuid) ∧
+          ∀ t, wait.bind (·.timeout) = some t → t.categoryUuid ∈ cats.map (·.uuid) ∧ t.categoryUuid ≠ dflt) :
+    (∀ c ∈ routerCatsD (reorderRouter r), c ∈ routerCatsD r) ∧
+    ((routerCatsD (reorderRouter r)).map (·.exitUuid)).Nodup ∧
+    validRouter (reorderRouter r) = true ∧ orderedRouter (reorderRouter r) = true ∧
+    routerCasesD (reorderRouter r) = routerCasesD r := by
+  cases r with
+  | random cats rn => exact ⟨fun c h => h, hxd, hv, rfl, rfl⟩
+  | switch op cases cats dflt wait rn =>
+    obtain ⟨hdm, ht⟩ := hd
+    obtain ⟨F, dc, tail, hre, hF, hdcm, hdcu, hFd, htail⟩ := reorder_switch op cases cats dflt wait rn hdm ht
+    simp only [validRouter, Bool.and_eq_true, decide_eq_true_eq] at hv
+    obtain ⟨⟨⟨hvc, hnd⟩, hcases⟩, hwait⟩ := hv
+    simp only [routerCatsD] at hxd
+    have hdcF : dc ∉ F := fun h => hFd dc h hdcu
+    have htail' : tail = [] ∨ ∃ nc, tail = [nc] ∧ nc ∈ cats ∧ nc ∉ F ∧ nc ≠ dc := by
+      rcases htail with ⟨_, h⟩ | ⟨t, nc, _, h, hncm, hncu, htne, hFt⟩
+      · exact Or.inl h
+      · refine Or.inr ⟨nc, h, hncm, fun hh => hFt nc hh hncu, ?_⟩
+        intro heq
+        subst heq
+        exact htne (hncu.symm.trans hdcu)
+    have hsub : ∀ c ∈ F ++ [dc] ++ tail, c ∈ cats := by
+      intro c hc
+      rcases List.mem_append.mp hc with h | h
+      · rcases List.mem_append.mp h with h | h
+        · exact hF.subset h
+        · simp at h; subst h; exact hdcm
+      · rcases htail' with rfl | ⟨nc, rfl, hncm, _, _⟩
+        · simp at h
+        · simp at h; subst h; exact hncm
+    rw [hre]
+    simp only [routerCatsD, routerCasesD]
+    refine ⟨hsub, nodup_reordered (·.exitUuid) cats F dc tail hxd hF hdcm hdcF htail', ?_, ?_, trivial⟩
+    · simp only [validRouter, Bool.and_eq_true, decide_eq_true_eq]
+      refine ⟨⟨⟨?_, nodup_reordered (·.uuid) cats F dc tail hnd hF hdcm hdcF htail'⟩, hcases⟩, hwait⟩
+      rw [List.all_eq_true]
+      intro c hc
+      exact (List.all_eq_true.mp hvc) c (hsub c hc)
+    · rcases htail with ⟨hwt, rfl⟩ | ⟨t, nc, hwt, rfl, _, hncu, _, _⟩
+      · simp [orderedRouter, hwt, hdcu]
+      · simp [orderedRouter, hwt, hdcu, hncu]
+
+theorem validRouter_cats (r : RouterD) (h : validRouter r = true) : ∀ c ∈ routerCatsD r, validCategory c = true := by
+  cases r with
+  | random cats rn =>
+    simp only [validRouter, Bool.and_eq_true] at h
+    exact fun c hc => (List.all_eq_true.mp h.1) c hc
+  | switch op cases cats dflt wait rn =>
+    simp only [validRouter, Bool.and_eq_true] at h
+    exact fun c hc => (List.all_eq_true.mp h.1.1.1) c hc
+
+/-- exits re-emitted in the order of `cats'` (all of which are wired categories of the node) -/
+theorem reordered_exits (exits : List ExitD) (cats' : List CategoryD)
+    (hexits : exits.all validExit = true)
+    (hwm' : ∀ c ∈ cats', c.exitUuid ∈ exits.map (·.uuid)) :
+    (cats'.map (fun c => exitOf exits c.exitUuid)).map (·.uuid) = cats'.map (·.exitUuid) ∧
+    (cats'.map (fun c => exitOf exits c.exitUuid)).all validExit = true ∧
+    mapE loadExit (cats'.map (fun c => exitOf exits c.exitUuid)) = .ok (cats'.map (fun c => exitOf exits c.exitUuid)) := by
+  have h2 : (cats'.map (fun c => exitOf exits c.exitUuid)).all validExit = true := by
+    rw [List.all_eq_true]
+    intro e he
+    obtain ⟨c, hc, rfl⟩ := List.mem_map.mp he
+    exact (List.all_eq_true.mp hexits) _ (exitOf_mem exits c.exitUuid (hwm' c hc))
+  refine ⟨?_, h2, ?_⟩
+  · rw [List.map_map]
+    exact List.map_congr_left (fun c hc => exitOf_uuid exits c.exitUuid (hwm' c hc))
+  · exact mapE_ok_id _ (fun e he => loadExit_ok e ((List.all_eq_true.mp h2) e he))
+
+theorem reorderNode_spec (n : NodeD) (hv : validNode n = true) (hw : catsWired n = true) :
+    loadNode (reorderNode n) = loadNode n ∧ validNode (reorderNode n) = true ∧
+    exitsByCats (reorderNode n) = true ∧ orderedNode (reorderNode n) = true ∧
+    (reorderNode n).actions = n.actions ∧ (reorderNode n).uuid = n.uuid ∧
+    nodeCasesD (reorderNode n) = nodeCasesD n := by
+  cases n with
+  | mk uuid actions router exits =>
+  cases router with
+  | none => exact ⟨rfl, hv, rfl, rfl, rfl, rfl, rfl⟩
+  | some r =>
+    obtain ⟨hwm, hxd, hd⟩ := catsWired_unpack uuid actions r exits hw
+    simp only [validNode, Bool.and_eq_true, bne_iff_ne, ne_eq, decide_eq_true_eq] at hv
+    obtain ⟨⟨⟨⟨huuid, hexits⟩, hnd⟩, hacts⟩, hrouter⟩ := hv
+    have hex : mapE loadExit exits = .ok exits :=
+      mapE_ok_id exits (fun e he => loadExit_ok e ((List.all_eq_true.mp hexits) e he))
+    cases r with
+    | random cats rn =>
+      simp only [Bool.and_eq_true, beq_iff_eq] at hrouter
+      obtain ⟨hvr, hnil⟩ := hrouter
+      obtain ⟨hsub, hxd', hvr', hor', hcases'⟩ := reorderRouter_facts (.random cats rn) hvr hxd hd
+      obtain ⟨huu, hval, hex'⟩ := reordered_exits exits cats hexits hwm
+      have hload := loadRouter_reorder exits (.random cats rn) (validRouter_cats _ hvr) hwm hd
+      simp only [reorderRouter, routerCatsD] at hload hxd
+      have hdef : reorderNode { uuid := uuid, actions := actions, router := some (.random cats rn), exits := exits }
+          = { uuid := uuid, actions := actions, router := some (.random cats rn),
+              exits := cats.map (fun c => exitOf exits c.exitUuid) } := rfl
+      rw [hdef]
+      refine ⟨?_, ?_, ?_, rfl, rfl, rfl, rfl⟩
+      · simp only [loadNode, if_neg huuid, hex, hex', hload]
+      · simp only [validNode, Bool.and_eq_true, bne_iff_ne, ne_eq, decide_eq_true_eq, beq_iff_eq]
+        exact ⟨⟨⟨⟨huuid, hval⟩, by rw [huu]; exact hxd⟩, hacts⟩, hvr, hnil⟩
+      · simp only [exitsByCats, routerCatsD, beq_iff_eq]
+        exact huu
+    | switch op cases cats dflt wait rn =>
+      simp only [Bool.and_eq_true] at hrouter
+      obtain ⟨hvr, hshape⟩ := hrouter
+      obtain ⟨hsub, hxd', hvr', hor', hcases'⟩ := reorderRouter_facts (.switch op cases cats dflt wait rn) hvr hxd hd
+      obtain ⟨F, dc, tail, hre, _⟩ := reorder_switch op cases cats dflt wait rn hd.1 hd.2
+      have hload := loadRouter_reorder exits (.switch op cases cats dflt wait rn) (validRouter_cats _ hvr) hwm hd
+      have hdef : reorderNode { uuid := uuid, actions := actions, router := some (.switch op cases cats dflt wait rn), exits := exits }
+          = { uuid := uuid, actions := actions, router := some (reorderRouter (.switch op cases cats dflt wait rn)),
+              exits := (routerCatsD (reorderRouter (.switch op cases cats dflt wait rn))).map (fun c => exitOf exits c.exitUuid) } := rfl
+      rw [hdef]
+      rw [hre] at hload hsub hxd' hvr' hor' hcases' ⊢
+      simp only [routerCatsD] at hload hsub hxd' ⊢
+      obtain ⟨huu, hval, hex'⟩ := reordered_exits exits (F ++ [dc] ++ tail) hexits (fun c hc => hwm c (hsub c hc))
+      refine ⟨?_, ?_, ?_, ?_, trivial, trivial, ?_⟩
+      · simp only [loadNode, if_neg huuid, hex, hex', hload]
+      · simp only [validNode, Bool.and_eq_true, bne_iff_ne, ne_eq, decide_eq_true_eq]
+        exact ⟨⟨⟨⟨huuid, hval⟩, by rw [huu]; exact hxd'⟩, hacts⟩, hvr', hshape⟩
+      · simp only [exitsByCats, routerCatsD, beq_iff_eq]
+        exact huu
+      · simpa [orderedNode] using hor'
+      · simpa [nodeCasesD] using hcases'
+
 end Rpft.Document
